@@ -488,6 +488,9 @@ def run(F, rep):
     if n_i2 < 1:
         raise AnalysisBroken('C09.I2: positional insertions into child containers: %d found, 2 confirmed' % n_i2)
 
+    from engines import rule_take_while
+    rule_take_while(F, rep, 'C09.T1', lambda g: '/src/' in g.file, 'the library')
+
 
 
 def strip_cast(n):
